@@ -270,8 +270,43 @@ class C03(Sim):
         q = r.choice(qs)
         return {"c": c, "op": q, "args": self._gen_args(r, q)}
 
+    ARGKIND = {**{q: "f" for q in ("f2c", "n_f2c", "f2e", "f2v", "is_face_on_border")}, **{q: "c" for q in ("c2f", "c2c", "c2v", "c2e")},
+               **{q: "v" for q in ("v2c", "is_vertex_on_border")}, **{q: "e" for q in ("e2c", "e2f", "is_edge_on_border")},
+               "in_cell_index": "cv", "in_cell_face_index": "cf", "common_face": "cc", "other_face_side": "cf", "face_id": "vvv",
+               "is_face_on_border_v": "vvv", "edge_id": "vv", "is_edge_on_border_v": "vv"}
+
     def applicable(self, ev):
+        q = ev["op"]
+        if q in Q:
+            args = ev.get("args", [])
+            ref = self.ref
+            bound = {"v": ref.nv, "f": len(ref.faces), "c": len(ref.cells), "e": len(ref.edges)}
+            kinds = self.ARGKIND.get(q, "")
+            if len(kinds) != len(args) or not all(isinstance(a, (int, np.integer)) and 0 <= a < bound[k] for a, k in zip(args, kinds)):
+                return False
+            if kinds in ("vv", "vvv") and len(set(args)) != len(args):
+                return False
+            if q == "is_face_on_border_v" and tuple(sorted(args)) not in ref.tri_cells:
+                return False
+            return True
         return ev["op"] != "enable_boundary_other" or self.other is not None
+
+    def shrink_cfgs(self, cfg):
+        """fewer cells (halves, quarters, eighths, single cells), unused vertices dropped; only conforming tetrahedral meshes are proposed"""
+        from models.ref_volume import is_conforming_tet_mesh
+        from models.surfgen import drop_chunks, compact_with_map
+        w = cfg["world"]
+        cells, pts = w["cells"], w["points"]
+        for lo, hi in drop_chunks(len(cells)):
+            nc = cells[:lo] + cells[hi:]
+            if not nc:
+                continue
+            p2, c2, m = compact_with_map(pts, nc)
+            if not is_conforming_tet_mesh(p2, c2):
+                continue
+            tris = {tuple(sorted(c[:q] + c[q + 1:])) for c in c2 for q in range(4)}
+            decl = [[m[v] for v in t] for t in w.get("declared", []) if all(v in m for v in t) and tuple(sorted(m[v] for v in t)) in tris]
+            yield dict(cfg, world=dict(w, points=p2, cells=c2, declared=decl))
 
     # ------------------------------------------------------------------ queries
     def _touch_state(self, mesh):
